@@ -1061,7 +1061,7 @@ class TokenizerCore:
             elif token_type == TokenType.BIT_STRING:
                 base = 2
             elif token_type == TokenType.HEREDOC_STRING:
-                line, col = self._line, self._col
+                current, line, col = self._current, self._line, self._col
                 self._advance()
 
                 if self._char == end:
@@ -1078,11 +1078,8 @@ class TokenizerCore:
                     and self.heredoc_tag_is_identifier
                     and (self._end or tag.isdigit() or any(c.isspace() for c in tag))
                 ):
-                    if not self._end:
-                        self._advance(-1)
-
-                    self._advance(-len(tag))
-                    # the tag may span line breaks, which _advance can't step back over
+                    # go back to the dollar sign; the tag may span line breaks, which _advance can't undo
+                    self._advance(current - self._current)
                     self._line, self._col = line, col
                     self._add(self.heredoc_string_alternative)
                     return True
